@@ -1,28 +1,313 @@
-(** * C03 — INTERIM file (being completed): support mappings. *)
-From Coq Require Import Reals Lra Psatz List.
-From D3 Require Import Base.Ops Base.Vec Base.RVec Base.RVec2 Spec.Convex Spec.Shapes Model.Support Proofs.ShapesTac.
+(** * C03 — Support mappings return a point of the shape that is extreme along the query.
+
+    Theorems only.  Model: Model/Support.v (line-by-line transliteration of
+    distance3d/geometry.py support_function_*, colliders.py support_function /
+    first_vertex / center / Margin, mesh.py hill climbing), instantiated at exact real
+    arithmetic ([ROps]).  Point sets: Spec/Shapes.v.  Proofs: Proofs/SupportA.v,
+    Proofs/SupportB.v, Proofs/MeshClimb.v.
+
+    [is_support S d s := S s /\ forall x, S x -> x.d <= s.d]  (membership AND exact
+    maximality).  Every closed-form statement holds for ALL directions [d] (including
+    [d = 0] and directions with zero components: the [s == 0], [norm == 0], [sign 0]
+    arms of the code are covered, not excluded) and for ALL poses: the rotation block is
+    an arbitrary 3x3 matrix because the shape is defined as the image [c + M.K] of the
+    canonical set under the very matrix the code is given.  Only the disk needs a unit
+    normal (the code builds its own frame from it). *)
+From Coq Require Import Reals Lra List.
+From D3 Require Import Base.Ops Base.Vec Base.RVec Base.RVec2 Spec.Convex Spec.Shapes
+  Model.Support Proofs.ShapesTac Proofs.SupportA Proofs.SupportB Proofs.MeshClimb.
+Import ListNotations.
 Local Open Scope R_scope.
 
-Theorem support_sphere_correct (d c : V3R) (r : R) :
+(** ** the nine closed-form kinds *)
+
+Theorem C03_sphere (d c : V3R) (r : R) :
   0 <= r -> is_support (sphere_set c r) d (support_sphere d c r).
+Proof. exact (support_sphere_correct d c r). Qed.
+Print Assumptions C03_sphere.
+
+Theorem C03_cylinder (d : V3R) (T : Pose R) (r l : R) :
+  0 <= r -> 0 <= l -> is_support (cylinder_set T r l) d (support_cylinder d T r l).
+Proof. exact (support_cylinder_correct d T r l). Qed.
+Print Assumptions C03_cylinder.
+
+Theorem C03_capsule (d : V3R) (T : Pose R) (r h : R) :
+  0 <= r -> 0 <= h -> is_support (capsule_set T r h) d (support_capsule d T r h).
+Proof. exact (support_capsule_correct d T r h). Qed.
+Print Assumptions C03_capsule.
+
+Theorem C03_ellipsoid (d : V3R) (T : Pose R) (radii : V3R) :
+  0 < vx radii -> 0 < vy radii -> 0 < vz radii ->
+  is_support (ellipsoid_set T radii) d (support_ellipsoid d T radii).
+Proof. exact (support_ellipsoid_correct d T radii). Qed.
+Print Assumptions C03_ellipsoid.
+
+Theorem C03_cone (d : V3R) (T : Pose R) (r h : R) :
+  0 <= r -> 0 < h -> is_support (cone_set T r h) d (support_cone d T r h).
+Proof. exact (support_cone_correct d T r h). Qed.
+Print Assumptions C03_cone.
+
+(** [dot n n = 1]: the docstring's "normal"; nothing else is assumed about it *)
+Theorem C03_disk (d c : V3R) (r : R) (n : V3R) :
+  0 <= r -> dot n n = 1 -> is_support (disk_set c r n) d (support_disk d c r n).
+Proof. exact (support_disk_correct d c r n). Qed.
+Print Assumptions C03_disk.
+
+(** the two axes are arbitrary vectors: the set is the image of the canonical ellipse
+    under the matrix with columns (a0, a1, a0 x a1) *)
+Theorem C03_ellipse (d c a0 a1 : V3R) (r0 r1 : R) :
+  0 < r0 -> 0 < r1 -> is_support (ellipse_set c a0 a1 r0 r1) d (support_ellipse d c a0 a1 r0 r1).
+Proof. exact (support_ellipse_correct d c a0 a1 r0 r1). Qed.
+Print Assumptions C03_ellipse.
+
+(** geometry.support_function_box (half lengths, np.sign form; used by the Nesterov solver) *)
+Theorem C03_box_sign_form (d : V3R) (T : Pose R) (h : V3R) :
+  0 <= vx h -> 0 <= vy h -> 0 <= vz h ->
+  is_support (box_half_set T h) d (support_box d T h).
+Proof. exact (support_box_correct d T h). Qed.
+Print Assumptions C03_box_sign_form.
+
+(** the Box collider: argmax over the eight vertices built by convert_box_to_vertices;
+    the answer exists (no IndexError) and supports the solid box *)
+Theorem C03_box_collider (d : V3R) (T : Pose R) (size : V3R) :
+  0 <= vx size -> 0 <= vy size -> 0 <= vz size ->
+  exists s, support_box_collider d T size = Some s /\ is_support (box_set T size) d s.
+Proof. exact (support_box_collider_correct d T size). Qed.
+Print Assumptions C03_box_collider.
+
+(** ** vertex hulls (ConvexHullVertices): np.argmax = FIRST maximal index *)
+Theorem C03_hull (d : V3R) (vs : list V3R) (s : V3R) :
+  support_hull d vs = Some s -> is_support (conv_hull vs) d s.
+Proof. exact (support_hull_correct d vs s). Qed.
+Print Assumptions C03_hull.
+
+Theorem C03_hull_total (d : V3R) (vs : list V3R) :
+  vs <> [] -> exists s, support_hull d vs = Some s.
+Proof. exact (support_hull_total d vs). Qed.
+Print Assumptions C03_hull_total.
+
+Theorem C03_hull_first_index (d : V3R) (vs : list V3R) (i : nat) :
+  argmax (map (fun v => dot v d) vs) = Some i ->
+  (i < length vs)%nat /\
+  (forall j, (j < length vs)%nat -> dot (nth j vs vzero) d <= dot (nth i vs vzero) d) /\
+  (forall j, (j < i)%nat -> dot (nth j vs vzero) d < dot (nth i vs vzero) d).
+Proof. exact (support_hull_first d vs i). Qed.
+Print Assumptions C03_hull_first_index.
+
+(** ** Margin: support of the Minkowski sum with a ball, for every wrapped set
+       (incl. [d = 0], where norm_vector returns [d] itself) *)
+Theorem C03_margin (S : set3) (d inner : V3R) (m : R) :
+  0 <= m -> is_support S d inner -> is_support (inflate S m) d (support_margin inner d m).
+Proof. exact (support_margin_correct S d inner m). Qed.
+Print Assumptions C03_margin.
+
+(** ** MeshGraph: hill climbing with shortcuts and cached start vertex *)
+
+(** the loop stops only at a vertex none of whose neighbours improves the projection by
+    more than 10*eps (for a valid start index; see [C03_mesh_local_max_refuted]) *)
+Theorem C03_mesh_local_max : forall fuel (d : V3R) start vs conn shortcuts i,
+  (start < length vs)%nat ->
+  hill_climb fuel d start vs conn shortcuts = ClimbOk i -> local_max d vs conn i.
+Proof. exact hill_climb_local_max_valid. Qed.
+Print Assumptions C03_mesh_local_max.
+
+(** without the validity hypothesis the statement is FALSE for the faithful model (and
+    the code): empty shortcut list, empty neighbour list, out-of-range start index *)
+Theorem C03_mesh_local_max_refuted :
+  ~ (forall fuel (d : V3R) start vs conn shortcuts i,
+       hill_climb fuel d start vs conn shortcuts = ClimbOk i -> local_max d vs conn i).
+Proof. exact hill_climb_local_max_refuted. Qed.
+Print Assumptions C03_mesh_local_max_refuted.
+
+(** termination and index safety: with a closed adjacency (every vertex has an entry,
+    entries list valid indices) the while loop ends within [length vs] rounds, raises
+    neither KeyError nor IndexError, and a query returns an answer *)
+Theorem C03_mesh_terminates : forall (d : V3R) vs conn start,
+  conn_closed vs conn -> (start < length vs)%nat ->
+  exists i, climb (S (length vs)) d vs conn start = ClimbOk i /\ (i < length vs)%nat.
+Proof. exact climb_terminates. Qed.
+Print Assumptions C03_mesh_terminates.
+
+Theorem C03_mesh_query_total (T : Pose R) vs conn shortcuts first_idx (d : V3R) :
+  conn_closed vs conn -> (first_idx < length vs)%nat ->
+  (forall j, In j shortcuts -> (j < length vs)%nat) ->
+  exists idx p, mesh_query (S (length vs)) T vs conn shortcuts first_idx d = Some (idx, p).
+Proof. exact (mesh_query_total T vs conn shortcuts first_idx d). Qed.
+Print Assumptions C03_mesh_query_total.
+
+(** PARTIAL.  What is proved: IF the input mesh satisfies [LocalMaxGlobal] for the pulled
+    back direction (a vertex none of whose neighbours is better by more than 10*eps is
+    within [delta] of the maximum over all vertices) THEN every answered query returns a
+    point of the placed hull whose projection is within [delta] of the maximum over the
+    hull, whatever the cached start vertex was.
+    What is missing for full strength: the theorem that the edge graph of the triangulated
+    boundary of a convex polytope satisfies [LocalMaxGlobal] (with delta of the order of
+    the threshold times the graph diameter).  That is a property of the INPUT MESH, not of
+    the code; the check evaluates it exactly for every generated mesh and direction. *)
+Theorem C03_mesh_support_partial : forall fuel (T : Pose R) vs conn shortcuts first_idx (d : V3R) idx p delta,
+  mesh_query fuel T vs conn shortcuts first_idx d = Some (idx, p) ->
+  LocalMaxGlobal (mulTV (rot T) d) vs conn delta ->
+  hull_set T vs p /\ forall x, hull_set T vs x -> dot x d <= dot p d + delta.
+Proof. exact mesh_support_partial. Qed.
+Print Assumptions C03_mesh_support_partial.
+
+(** "the answer does not depend on earlier queries": two different cached start vertices
+    give support values that differ by at most [delta] (same hypothesis as above) *)
+Theorem C03_mesh_history_independent_partial :
+  forall fuel (T : Pose R) vs conn shortcuts i1 i2 (d : V3R) idx1 p1 idx2 p2 delta,
+  mesh_query fuel T vs conn shortcuts i1 d = Some (idx1, p1) ->
+  mesh_query fuel T vs conn shortcuts i2 d = Some (idx2, p2) ->
+  LocalMaxGlobal (mulTV (rot T) d) vs conn delta ->
+  Rabs (dot p1 d - dot p2 d) <= delta.
+Proof. exact mesh_history_independent_partial. Qed.
+Print Assumptions C03_mesh_history_independent_partial.
+
+(** the same for the k-th query of ANY sequence of queries on one object *)
+Theorem C03_mesh_queries_partial : forall fuel (T : Pose R) vs conn shortcuts ds first_idx k (d : V3R) idx p delta,
+  nth_error (mesh_queries fuel T vs conn shortcuts first_idx ds) k = Some (Some (idx, p)) ->
+  nth_error ds k = Some d ->
+  LocalMaxGlobal (mulTV (rot T) d) vs conn delta ->
+  hull_set T vs p /\ forall x, hull_set T vs x -> dot x d <= dot p d + delta.
+Proof. exact mesh_queries_partial. Qed.
+Print Assumptions C03_mesh_queries_partial.
+
+Theorem C03_mesh_queries_total (T : Pose R) vs conn shortcuts : forall ds first_idx,
+  conn_closed vs conn -> (first_idx < length vs)%nat ->
+  (forall j, In j shortcuts -> (j < length vs)%nat) ->
+  length (mesh_queries (S (length vs)) T vs conn shortcuts first_idx ds) = length ds /\
+  Forall (fun o => o <> None) (mesh_queries (S (length vs)) T vs conn shortcuts first_idx ds).
+Proof. exact (mesh_queries_total T vs conn shortcuts). Qed.
+Print Assumptions C03_mesh_queries_total.
+
+(** ** first_vertex() and center() are points of the set *)
+Theorem C03_first_vertex_sphere c r : 0 <= r -> sphere_set c r (first_vertex_sphere c r).
+Proof. exact (first_vertex_sphere_in c r). Qed.
+Print Assumptions C03_first_vertex_sphere.
+Theorem C03_center_sphere c r : 0 <= r -> sphere_set c r (center_sphere c).
+Proof. exact (center_sphere_in c r). Qed.
+Print Assumptions C03_center_sphere.
+
+Theorem C03_first_vertex_box T size v : 0 <= vx size -> 0 <= vy size -> 0 <= vz size ->
+  first_vertex_hull (convert_box_to_vertices T size) = Some v -> box_set T size v.
+Proof. exact (first_vertex_box_in T size v). Qed.
+Print Assumptions C03_first_vertex_box.
+Theorem C03_center_box T size : 0 <= vx size -> 0 <= vy size -> 0 <= vz size -> box_set T size (center_box T).
+Proof. exact (center_box_in T size). Qed.
+Print Assumptions C03_center_box.
+
+Theorem C03_first_vertex_capsule T r h : 0 <= r -> 0 <= h -> capsule_set T r h (first_vertex_capsule T r h).
+Proof. exact (first_vertex_capsule_in T r h). Qed.
+Print Assumptions C03_first_vertex_capsule.
+Theorem C03_center_capsule T r h : 0 <= r -> 0 <= h -> capsule_set T r h (trans T).
+Proof. exact (center_capsule_in T r h). Qed.
+Print Assumptions C03_center_capsule.
+
+Theorem C03_first_vertex_cylinder T r l : 0 <= r -> 0 <= l -> cylinder_set T r l (first_vertex_cylinder T l).
+Proof. exact (first_vertex_cylinder_in T r l). Qed.
+Print Assumptions C03_first_vertex_cylinder.
+Theorem C03_center_cylinder T r l : 0 <= r -> 0 <= l -> cylinder_set T r l (trans T).
+Proof. exact (center_cylinder_in T r l). Qed.
+Print Assumptions C03_center_cylinder.
+
+Theorem C03_first_vertex_ellipsoid T radii : 0 < vx radii -> 0 < vy radii -> 0 < vz radii ->
+  ellipsoid_set T radii (first_vertex_ellipsoid T radii).
+Proof. exact (first_vertex_ellipsoid_in T radii). Qed.
+Print Assumptions C03_first_vertex_ellipsoid.
+Theorem C03_center_ellipsoid T radii : 0 < vx radii -> 0 < vy radii -> 0 < vz radii ->
+  ellipsoid_set T radii (trans T).
+Proof. exact (center_ellipsoid_in T radii). Qed.
+Print Assumptions C03_center_ellipsoid.
+
+Theorem C03_first_vertex_cone T r h : 0 <= r -> 0 < h -> cone_set T r h (first_vertex_cone T h).
+Proof. exact (first_vertex_cone_in T r h). Qed.
+Print Assumptions C03_first_vertex_cone.
+Theorem C03_center_cone T r h : 0 <= r -> 0 < h -> cone_set T r h (center_cone T h).
+Proof. exact (center_cone_in T r h). Qed.
+Print Assumptions C03_center_cone.
+
+Theorem C03_first_vertex_disk c r n : 0 <= r -> dot n n = 1 -> disk_set c r n (first_vertex_disk c r n).
+Proof. exact (first_vertex_disk_in c r n). Qed.
+Print Assumptions C03_first_vertex_disk.
+Theorem C03_center_disk c r n : 0 <= r -> disk_set c r n c.
+Proof. exact (center_disk_in c r n). Qed.
+Print Assumptions C03_center_disk.
+
+Theorem C03_first_vertex_ellipse c a0 a1 r0 r1 : 0 < r0 -> 0 < r1 ->
+  ellipse_set c a0 a1 r0 r1 (first_vertex_ellipse c a0 r0).
+Proof. exact (first_vertex_ellipse_in c a0 a1 r0 r1). Qed.
+Print Assumptions C03_first_vertex_ellipse.
+Theorem C03_center_ellipse c a0 a1 r0 r1 : 0 < r0 -> 0 < r1 -> ellipse_set c a0 a1 r0 r1 c.
+Proof. exact (center_ellipse_in c a0 a1 r0 r1). Qed.
+Print Assumptions C03_center_ellipse.
+
+Theorem C03_first_vertex_hull (vs : list V3R) v : first_vertex_hull vs = Some v -> conv_hull vs v.
+Proof. exact (first_vertex_hull_in vs v). Qed.
+Print Assumptions C03_first_vertex_hull.
+Theorem C03_center_hull (vs : list V3R) : vs <> [] -> conv_hull vs (mean3 vs (INR (length vs))).
+Proof. exact (center_hull_in vs). Qed.
+Print Assumptions C03_center_hull.
+
+Theorem C03_first_vertex_mesh T (vs : list V3R) v : first_vertex_mesh T vs = Some v -> hull_set T vs v.
+Proof. exact (first_vertex_mesh_in T vs v). Qed.
+Print Assumptions C03_first_vertex_mesh.
+Theorem C03_center_mesh T (vs : list V3R) : vs <> [] -> hull_set T vs (center_mesh T vs (INR (length vs))).
+Proof. exact (center_mesh_in T vs). Qed.
+Print Assumptions C03_center_mesh.
+
+(** ** non-vacuity: concrete poses, sizes and directions satisfying the hypotheses.
+       [T45] is a pose with a NON-orthonormal rotation block (entries 1, -1, 1, 1: a
+       scaled 45 degree turn) and a translation, to show that no orthonormality is used. *)
+Definition T45 : Pose R := P (M (V 1 (-1) 0) (V 1 1 0) (V 0 0 1)) (V 1 2 3).
+
+Example C03_sphere_nonvacuous :
+  is_support (sphere_set (V 1 2 3) 2) (V 0 0 0) (support_sphere (V 0 0 0) (V 1 2 3) 2) /\
+  is_support (sphere_set (V 1 2 3) 2) (V 3 0 (-4)) (support_sphere (V 3 0 (-4)) (V 1 2 3) 2).
+Proof. split; apply C03_sphere; lra. Qed.
+Example C03_cylinder_nonvacuous :
+  is_support (cylinder_set T45 2 4) (V 0 0 (-1)) (support_cylinder (V 0 0 (-1)) T45 2 4) /\
+  is_support (cylinder_set T45 2 4) (V 1 1 0) (support_cylinder (V 1 1 0) T45 2 4).
+Proof. split; apply C03_cylinder; lra. Qed.
+Example C03_capsule_nonvacuous :
+  is_support (capsule_set T45 (/ 2) 3) (V 1 0 0) (support_capsule (V 1 0 0) T45 (/ 2) 3).
+Proof. apply C03_capsule; lra. Qed.
+Example C03_ellipsoid_nonvacuous :
+  is_support (ellipsoid_set T45 (V 1 2 3)) (V 0 1 1) (support_ellipsoid (V 0 1 1) T45 (V 1 2 3)).
+Proof. apply C03_ellipsoid; cbn [vx vy vz]; lra. Qed.
+Example C03_cone_nonvacuous :
+  is_support (cone_set T45 1 2) (V 0 0 1) (support_cone (V 0 0 1) T45 1 2) /\
+  is_support (cone_set T45 1 2) (V 1 0 (-1)) (support_cone (V 1 0 (-1)) T45 1 2).
+Proof. split; apply C03_cone; lra. Qed.
+Example C03_disk_nonvacuous :
+  is_support (disk_set (V 1 2 3) 2 (V 0 (3 / 5) (4 / 5))) (V 1 0 0)
+             (support_disk (V 1 0 0) (V 1 2 3) 2 (V 0 (3 / 5) (4 / 5))).
+Proof. apply C03_disk; [lra|vunfold; field]. Qed.
+Example C03_ellipse_nonvacuous :
+  is_support (ellipse_set (V 1 2 3) (V 1 0 0) (V 0 1 0) 2 3) (V 1 1 1)
+             (support_ellipse (V 1 1 1) (V 1 2 3) (V 1 0 0) (V 0 1 0) 2 3).
+Proof. apply C03_ellipse; lra. Qed.
+Example C03_box_sign_form_nonvacuous :
+  is_support (box_half_set T45 (V 1 2 3)) (V 0 1 (-1)) (support_box (V 0 1 (-1)) T45 (V 1 2 3)).
+Proof. apply C03_box_sign_form; cbn [vx vy vz]; lra. Qed.
+Example C03_box_collider_nonvacuous :
+  exists s, support_box_collider (V 0 1 (-1)) T45 (V 2 4 6) = Some s /\
+            is_support (box_set T45 (V 2 4 6)) (V 0 1 (-1)) s.
+Proof. apply C03_box_collider; cbn [vx vy vz]; lra. Qed.
+Example C03_hull_nonvacuous :
+  exists s, support_hull (V 1 (/ 2) (/ 4)) octa_vs = Some s /\ is_support (conv_hull octa_vs) (V 1 (/ 2) (/ 4)) s.
 Proof.
-  intros Hr. unfold support_sphere. rops.
-  case_eqb (norm d) 0 Hn.
-  - apply norm_zero_iff in Hn. subst d. split.
-    + apply sphere_set_iff. vsimp. nra.
-    + intros x _. vsimp. lra.
-  - pose proof (norm_nonneg d) as Hp. pose proof (norm_sq d) as Hsq.
-    split.
-    + apply sphere_set_iff.
-      replace (vsub (vadd c (vscale r (vdivs d (norm d)))) c) with (vscale r (vdivs d (norm d))) by (vsimp; f_equal; ring).
-      replace (dot (vscale r (vdivs d (norm d))) (vscale r (vdivs d (norm d)))) with (r * r * (dot d d / (norm d * norm d))).
-      * rewrite <- Hsq. replace (norm d * norm d / (norm d * norm d)) with 1 by (field; auto). lra.
-      * vsimp. cbn [norm] in *. field. auto.
-    + intros x Hx. apply sphere_set_iff in Hx.
-      pose proof (cs3_radius (vsub x c) d r Hr Hx) as Hc. rewrite dot_sub_l in Hc.
-      rewrite dot_add_l.
-      replace (dot (vscale r (vdivs d (norm d))) d) with (r * (dot d d / norm d)).
-      * rewrite <- Hsq. replace (norm d * norm d / norm d) with (norm d) by (field; auto). lra.
-      * vsimp. cbn [norm] in *. field. auto.
+  destruct (C03_hull_total (V 1 (/ 2) (/ 4)) octa_vs) as [s Hs]; [discriminate|].
+  exists s. split; [exact Hs|apply C03_hull; exact Hs].
 Qed.
-Print Assumptions support_sphere_correct.
+Example C03_margin_nonvacuous :
+  is_support (inflate (sphere_set (V 1 2 3) 2) (/ 2)) (V 3 0 (-4))
+             (support_margin (support_sphere (V 3 0 (-4)) (V 1 2 3) 2) (V 3 0 (-4)) (/ 2)).
+Proof. apply C03_margin; [lra|apply C03_sphere; lra]. Qed.
+(** the octahedron with its edge graph satisfies [LocalMaxGlobal] (delta = 0) and
+    [conn_closed], and a query from a cached vertex on the far side is answered *)
+Example C03_mesh_hypotheses_nonvacuous :
+  LocalMaxGlobal (V 1 (/2) (/4)) octa_vs octa_conn 0 /\ conn_closed octa_vs octa_conn.
+Proof. exact LocalMaxGlobal_octahedron_nonvacuous. Qed.
+Example C03_mesh_query_nonvacuous :
+  exists idx p, mesh_query 7 (P ident (V 0 0 0)) octa_vs octa_conn [0; 2; 4; 1; 3; 5]%nat 3%nat (V 1 (/2) (/4))
+                = Some (idx, p).
+Proof. exact mesh_query_octahedron_nonvacuous. Qed.
